@@ -12,6 +12,7 @@
 (*   k = "pair": one datagram with the forged source address of the other  *)
 (*               server; the packet counters of both servers afterwards    *)
 (*               => ninj = 1, nsent = datagrams received by A and by B     *)
+(*   k = "stage": per-stage totals of the listeners' log lines (strict only)*)
 (*   monitor (ListenerTrace_mon.cfg): the PROPERTY SECTION of Listener     *)
 (*   strict  (ListenerTrace_strict.cfg): the record is what Listener's     *)
 (*           pipeline and reply construction compute                       *)
@@ -31,9 +32,10 @@ Trace == ndJsonDeserialize("trace.ndjson")
 N == Len(Trace)
 
 \* the request as sent
-DOf(R) == Dgram(R.tp, R.src, R.dst, R.sc, Payload(R.b0, R.len, R.tr))
+\* (records of IP cases carry no "sc" field)
+DOf(R) == Dgram(R.tp, R.src, R.dst, IF R.tp = "scion" THEN R.sc ELSE NoSc, Payload(R.b0, R.len, R.tr))
 \* a datagram as received back
-OOf(R, o) == Dgram(R.tp, o.src, o.dst, o.sc, [b0 |-> o.b0, len |-> o.len, tr |-> o.tr, st |-> o.st])
+OOf(R, o) == Dgram(R.tp, o.src, o.dst, IF R.tp = "scion" THEN o.sc ELSE NoSc, [b0 |-> o.b0, len |-> o.len, tr |-> o.tr, st |-> o.st])
 EvOf(R) == [srv |-> R.srv, d |-> DOf(R), out |-> [i \in DOMAIN R.out |-> OOf(R, R.out[i])]]
 
 TInit == l = 0 /\ draft = Idle /\ net = << >> /\ hist = << >> /\ nsent = 0 /\ ninj = 0
@@ -42,7 +44,9 @@ TNext ==
   /\ LET R == Trace[l']
      IN IF R.k = "case"
         THEN hist' = <<EvOf(R)>> /\ ninj' = 1 /\ nsent' = 1 + R.n
-        ELSE hist' = << >> /\ ninj' = 1 /\ nsent' = R.arecv + R.brecv
+        ELSE IF R.k = "pair"
+        THEN hist' = << >> /\ ninj' = 1 /\ nsent' = R.arecv + R.brecv
+        ELSE hist' = << >> /\ ninj' = 0 /\ nsent' = 0
   /\ UNCHANGED <<draft, net>>
 TSpec == TInit /\ [][TNext]_<<draft, net, hist, nsent, ninj, l>>
 
@@ -66,9 +70,12 @@ MRawReverse == IsCase => \A i \in DOMAIN R.out : R.out[i].raw_ok
 \* -------------------------------------------------------------- strict
 SReplies == IsCase => EvOf(R).out = Replies(R.srv, DOf(R))
 SPredicted == IsCase => (R.exp = Len(Replies(R.srv, DOf(R))) /\ R.drop = DropStage(R.srv, DOf(R)))
-\* basic-mode origin echo, nothing else came back, first attempt sufficed
+\* basic-mode origin echo, nothing else came back
 SEcho  == IsCase => \A i \in DOMAIN R.out : R.out[i].echo
-SOther == IsCase => (R.other = 0 /\ R.tries = 1)
+SOther == IsCase => R.other = 0
+\* k = "stage": how often the listeners' own log named a stage of the pipeline
+\* during the case phase, against how often DropStage predicted it
+SStage == (l > 0 /\ R.k = "stage") => R.logged = R.predicted
 \* pair: the forged datagram reaches `to`; `to` answers it iff it is valid; the
 \* other server receives that answer and stays silent
 SPair == IsPair =>
